@@ -2,6 +2,7 @@
 Require Import MV.Base.Prelude MV.Base.CInt MV.Base.Index MV.Base.BorderSpec.
 Require Import MV.Gen.Scalar_gen MV.Model.Filter MV.Model.Morph MV.Model.Convolve.
 Require Import MV.Proof.Border MV.Proof.ConvProof MV.Proof.SafetyProof MV.Proof.MorphProof.
+Require Import MV.Model.MorphFast MV.Gen.FastPath_gen MV.Proof.MorphFastProof MV.Proof.FastPathTie.
 
 (* every index produced by the border function is inside [0,len), or is the explicit flag which the
    kernels test for (constant / ignore mode, coordinate really outside) *)
@@ -53,3 +54,9 @@ Proof.
   intros sh strides p L Hd Hp. destruct (at_flat_addresses_logical_element sh strides p L Hd Hp) as (pos & F & A & _).
   exists pos. split; assumption.
 Qed.
+
+(* the 2-D boolean fast path of erode/dilate (pointer arithmetic on raw rows): every cell written and every cell read by the
+   loops RE-TRANSLATED from _morph.cpp lies inside the Ny x Nx buffers, for every element (larger than the image included) *)
+Theorem C10_fast_path_cells_in_bounds : forall is_er Ny Nx pos t s, 1 <= Ny -> 1 <= Nx ->
+  In (t, s) (gen_fb_updates is_er Ny Nx pos) -> 0 <= t < Ny * Nx /\ 0 <= s < Ny * Nx.
+Proof. intros is_er Ny Nx pos t s H1 H2. rewrite gen_updates_are_model_updates. now apply fb_updates_in_bounds. Qed.
